@@ -184,3 +184,23 @@ func devCells(kind string) {
 	}
 	fmt.Printf("%d cells, %d mismatches\n", len(j.caseNames()), bad)
 }
+
+func init() {
+	if len(os.Args) > 4 && os.Args[1] == "seqprobe" {
+		// development aid: c11 seqprobe file.php server url...   (X-Tok = tok<i>)
+		w, _ := newWorld()
+		src, _ := os.ReadFile(os.Args[2])
+		if err := w.load(string(src), os.Args[2]); err != nil {
+			fmt.Println(err)
+			os.Exit(2)
+		}
+		for i, u := range os.Args[4:] {
+			rec := httptest.NewRecorder()
+			rq := httptest.NewRequest("GET", u, nil)
+			rq.Header.Set("X-Tok", fmt.Sprintf("tok%d", i))
+			w.servers[os.Args[3]].ServeHTTP(rec, rq)
+			fmt.Printf("%s -> %d %v\n%s\n", u, rec.Code, rec.Header(), rec.Body.String())
+		}
+		os.Exit(0)
+	}
+}
